@@ -16,7 +16,8 @@ RULE = (
     "case = block of (loss, data) pairs; for each pair a sequence of related evaluations on the same loss object: "
     "repeat (bitwise equal, vars(loss) unchanged, input digests unchanged), one-hot weights (L(w) = sum w_i L(e_i)), zero "
     "weight + scrambled coordinate, joint permutation of coordinates/weights/filters, ensemble permutation, sign, zero at "
-    "sim==real, wrong-length weights/filters -> ValueError. Losses: the five built-ins with generated options and "
+    "sim==real, wrong-length weights/filters -> ValueError, new weights/filters assigned to an already evaluated object equal a "
+    "fresh object with them, NaN/inf entries of the simulated data are not rewritten; ensemble sizes 1-4 and 17-33. Losses: the five built-ins with generated options and "
     "generated user losses on BaseLoss (mean-abs / max-abs / sum-squares / power-p of member-mean differences). "
     "Non-trivial = D >= 2 with non-uniform weights or a non-identity permutation; distinct by (loss descriptor, relation "
     "set, data hash)."
@@ -31,7 +32,7 @@ ASSUMPTIONS = [
 ]
 REQUIRED_COUNTERS = {
     "purity": 200, "linearity": 100, "zero_weight": 50, "coord_perm": 100, "ens_perm": 100, "nonneg": 80, "zero_equal": 60,
-    "wrong_len": 100, "user_loss": 40,
+    "wrong_len": 100, "user_loss": 40, "options_changed_after_evaluation": 100, "purity_nonfinite_input": 100, "ensemble_above_16": 10,
 }
 SHARDS = {"quick": 16, "thorough": 16}
 KINDS = ["minkowski", "msm", "fourier", "gsl", "likelihood", "user"]
@@ -99,6 +100,9 @@ def run_case(desc, ctx):
         N = int(rng.integers(8, 80 if kind != "likelihood" else 40))
         D = int(rng.integers(1, 5))
         E = int(rng.integers(1, 5))
+        if rng.random() < 0.1:
+            E = int(rng.integers(17, 34))     # beyond any plausible internal block size, and not a multiple of one
+            cnt("ensemble_above_16")
         if kind == "user":
             d = {"kind": "user", "form": str(rng.choice(USER_FORMS)), "p": float(rng.choice([1.0, 1.5, 3.0])),
                  "weights": G.gen_weights(rng, D), "filters": G.gen_filters(rng, D)}
@@ -169,6 +173,40 @@ def run_case(desc, ctx):
         except Exception as e:  # noqa: BLE001
             bad(f"repeat evaluation raised {type(e).__name__}: {e}")
         finite = math.isfinite(v1)
+        # ---- options changed on an object that has already been evaluated take effect (nothing validated earlier may stick)
+        try:
+            lm = build(d)
+            ev(lm, sim, real)
+            what = "filters" if (not weights_apply or rng.random() < 0.4) else "weights"
+            if what == "weights":
+                new_w = np.round(rng.random(D) * 3, 3).tolist()
+                lm.coordinate_weights = np.array(new_w, dtype=float)
+                fresh = build(dict(d, weights=new_w, defaults=False) if not d.get("defaults") else dict(d, weights=new_w))
+            else:
+                lm.coordinate_filters = [None] * D
+                fresh = build(dict(d, filters=[None] * D))
+            vm, vf = ev(lm, sim, real), ev(fresh, sim, real)
+            cnt("options_changed_after_evaluation")
+            if not close(vm, vf, abs(vf)):
+                bad(f"after assigning new coordinate_{what} to an evaluated loss object it returns {vm!r}; a fresh object with these {what} returns {vf!r}")
+        except Exception as e:  # noqa: BLE001
+            bad(f"evaluation after changing an option raised {type(e).__name__}: {e}")
+        # ---- inputs containing NaN / inf are inputs too: whatever the value, they are not rewritten
+        try:
+            sim_nf = np.array(sim, dtype=float, copy=True)
+            for _k in range(int(rng.integers(1, 4))):
+                sim_nf[int(rng.integers(sim_nf.shape[0])), int(rng.integers(N)), int(rng.integers(D))] = float(rng.choice([np.nan, np.inf, -np.inf]))
+            dn = digest(sim_nf)
+            try:
+                with np.errstate(all="ignore"):
+                    ev(build(d), sim_nf, real)
+            except Exception:  # noqa: BLE001   (a filter or a third-party routine may refuse non-finite data; refusing is fine)
+                cnt("nonfinite_input_refused")
+            cnt("purity_nonfinite_input")
+            if digest(sim_nf) != dn:
+                bad("compute_loss rewrote non-finite entries of the simulated data it was given")
+        except Exception as e:  # noqa: BLE001
+            bad(f"non-finite purity probe raised {type(e).__name__}: {e}")
         # ---- weight linearity
         if weights_apply and finite:
             try:
@@ -226,7 +264,7 @@ def run_case(desc, ctx):
                 bad(f"ensemble-permuted evaluation raised {type(e).__name__}: {e}")
         # ---- sign
         signed = kind in ("minkowski", "fourier") or (kind == "msm" and d["cov"] in ("identity", "inverse_variance"))
-        if signed and finite:
+        if signed and finite and all(wi >= 0 for wi in w):
             cnt("nonneg")
             if v1 < 0:
                 bad(f"negative value {v1!r}")
